@@ -262,6 +262,7 @@ var (
 	cC_ops      = core.RegCounter("c18c.ops")
 	cC_switches = core.RegCounter("c18c.context_switches")
 	cC_refs     = core.RegCounter("c18c.reference_results_computed")
+	cC_inop     = core.RegCounter("c18e.switches_inside_a_library_operation")
 	cC_kind     [cNumOps]int
 	cRef        *cShared
 	cRefMemo    = map[[2]int][]byte{}
@@ -280,6 +281,17 @@ func init() {
 			"oracle: zero race reports and each result byte-identical to the same call executed alone on a pristine twin of the shared objects; non-trivial = at least two tasks and two context switches; distinct = distinct event-log digests",
 		Real: []string{"the whole library (ed25519, cache, ecvrf, x25519, sr25519, merlin, h2c, curve, scalar)", "Go race detector"},
 		Stub: []string{"goroutine scheduler (rt, raw pipe hand-off)", "entropy: deterministic readers"},
+		Run:  runC18C,
+	})
+	Register(&Workload{
+		Name:     "C18E",
+		Property: "C18",
+		Phase:    "E: preemption between the statements of the protocol layer",
+		Variants: []string{"instrw", "instrw-race"},
+		Rule: "the scripts, shared objects and oracle of phase C, on a build whose statement-yield overlay covers every non-test file under primitives/ (ed25519, sr25519, merlin, ecvrf, x25519, h2c, cache): tasks are preempted between the statements of Sign, Verify, batch verification, transcript construction etc., so shared mutable state that is not a data race at operation granularity (a package-level scratch buffer reused within one call, a memo keyed on the last caller) produces a wrong result under some schedule; " +
+			"oracle: each result byte-identical to the same call executed alone on a pristine twin (and zero race reports on the race variant); non-trivial = at least one context switch while the leaving task was inside a library operation; distinct = distinct event-log digests",
+		Real: []string{"the whole library; statement yields spliced into primitives/**"},
+		Stub: []string{"goroutine scheduler (rt)", "entropy: deterministic readers"},
 		Run:  runC18C,
 	})
 }
@@ -306,7 +318,11 @@ func runC18C(e *Env, r *core.Run) {
 	r.Ev("cfg tasks=%d ops=%d focus=%d", ntasks, total, focus)
 	sh := newCShared()
 	sim := e.Sim
-	sim.Begin(rt.Config{Draw: func(n int) int { return t.Draw(core.SS, n) }, EstYields: total * 4, MaxYields: uint64(total*2000 + 10000)})
+	est := total * 4
+	if e.Wide {
+		est = total * 120 // statement yields inside the protocol layer
+	}
+	sim.Begin(rt.Config{Draw: func(n int) int { return t.Draw(core.SS, n) }, EstYields: est, MaxYields: uint64(total*200000 + 10000)})
 	logs := make([]*core.Log, ntasks)
 	got := make([][][]byte, ntasks)
 	for i := range logs {
@@ -338,6 +354,10 @@ func runC18C(e *Env, r *core.Run) {
 	r.AddSteps(sim.Yields)
 	r.CountN(cC_switches, int64(sim.Switches))
 	r.Nontrivial = sim.Switches >= 2
+	if e.Wide {
+		r.Nontrivial = sim.SwitchInOp >= 1
+		r.CountN(cC_inop, int64(sim.SwitchInOp))
+	}
 	r.Ev("sched policy=%d yields=%d switches=%d hash=%x", sim.Policy(), sim.Yields, sim.Switches, sim.SchedHash)
 	if sim.AbortClass != "" {
 		r.Fail(sim.AbortClass, sim.AbortClass, "run aborted: %s", sim.AbortClass)
